@@ -8,7 +8,14 @@
 //!    filesystem failure of the first shift / of the final move when count = 1).
 //!  * crash: at the k-th step boundary of the n-th attempt the directory is copied (crash image);
 //!    the rest of the history runs on the image with a FRESH appender.
-use crate::c07::{compress_for, n_threads, quiet_stdout, run_with_timeout, scratch_dir, snapshot, snapshot_canon, wait_quiescent, write_file};
+//!  * `p` … `v`: in between, everything the appender does runs under the effective uid 65534, which
+//!    owns the log file and the directory `arch/` of the archives but may not modify the directory
+//!    of the log file (root-owned, 0755): a REAL failure inside the final step — `rename` is refused,
+//!    the copy fallback succeeds, the source cannot be removed. Needs a harness running as root.
+//!  * step number 4294967294 (the argument `u32::MAX - 1` of the hook point between the compressing
+//!    copy and the removal of its source) in `faults` / `crash`: fault / crash image INSIDE the final
+//!    step of a compressing pattern.
+use crate::c07::{compress_for, decompress_for, n_threads, quiet_stdout, run_with_timeout, scratch_dir, snapshot_canon, wait_quiescent, write_file};
 use crate::proto::*;
 use crate::rng::Rng;
 use log4rs::append::rolling_file::policy::compound::{
@@ -47,6 +54,142 @@ struct Hook {
     crash_at: Option<usize>,
     crash_on_completion: bool,
     crashed: bool,
+    /// fail / die at the hook point inside the compressing final step
+    fail_mid: bool,
+    crash_mid: bool,
+}
+
+/// recursive snapshot as `c07::snapshot`, but a symbolic link to a directory is followed (op `x`:
+/// `arch/` lives on another filesystem)
+fn walk_follow(root: &Path, dir: &Path, out: &mut Vec<(String, Vec<u8>)>) {
+    let rd = match std::fs::read_dir(dir) {
+        Ok(r) => r,
+        Err(_) => return,
+    };
+    for e in rd.flatten() {
+        let p = e.path();
+        if p.is_dir() {
+            walk_follow(root, &p, out);
+        } else {
+            let rel = p.strip_prefix(root).unwrap().to_string_lossy().replace('\\', "/");
+            let data = std::fs::read(&p).unwrap_or_default();
+            let data = decompress_for(&rel, data);
+            out.push((rel, data));
+        }
+    }
+}
+
+fn snapshot(root: &Path) -> String {
+    let mut v = Vec::new();
+    walk_follow(root, root, &mut v);
+    v.sort();
+    let xs: Vec<String> = v.iter().map(|(p, b)| format!("{}:{}", enc_str(p), enc_bytes(b))).collect();
+    enc_list(",", &xs)
+}
+
+/// a directory on a filesystem other than the scratch directory's, if there is one (`/dev/shm`)
+fn other_filesystem(root: &Path) -> Option<PathBuf> {
+    use std::os::unix::fs::MetadataExt;
+    let shm = Path::new("/dev/shm");
+    let a = std::fs::metadata(shm).ok()?.dev();
+    let b = std::fs::metadata(root).ok()?.dev();
+    if a == b {
+        return None;
+    }
+    let d = shm.join(format!("verif-{}", root.file_name()?.to_string_lossy()));
+    let _ = std::fs::remove_dir_all(&d);
+    std::fs::create_dir_all(&d).ok()?;
+    Some(d)
+}
+
+/// op `x`: `arch/` becomes a symbolic link to a directory on another filesystem (what is in it
+/// moves along): `rename` of the log file into it fails with EXDEV and `move_file` takes its
+/// copy + remove fallback — successfully
+fn cross_mount(root: &Path) -> Option<PathBuf> {
+    let arch = root.join("arch");
+    if std::fs::symlink_metadata(&arch).map(|m| m.file_type().is_symlink()).unwrap_or(false) {
+        return std::fs::read_link(&arch).ok();
+    }
+    let other = other_filesystem(root)?;
+    if arch.is_dir() {
+        copy_dir(&arch, &other);
+        let _ = std::fs::remove_dir_all(&arch);
+    }
+    std::os::unix::fs::symlink(&other, &arch).ok()?;
+    Some(other)
+}
+
+const MID: usize = (u32::MAX - 1) as usize;
+const NOBODY: u32 = 65534;
+
+/// effective uid of the process for the lifetime of the value (restored on every path, unwinding
+/// included); glibc applies `seteuid` to all threads
+struct Euid(bool);
+
+impl Euid {
+    fn drop_to(uid: u32, active: bool) -> Euid {
+        if active && unsafe { libc::seteuid(uid) } == 0 {
+            Euid(true)
+        } else {
+            Euid(false)
+        }
+    }
+}
+
+impl Drop for Euid {
+    fn drop(&mut self) {
+        if self.0 {
+            unsafe {
+                libc::seteuid(0);
+            }
+        }
+    }
+}
+
+fn chown_path(p: &Path, uid: u32) {
+    use std::os::unix::ffi::OsStrExt;
+    if let Ok(c) = std::ffi::CString::new(p.as_os_str().as_bytes()) {
+        unsafe {
+            libc::lchown(c.as_ptr(), uid, uid);
+        }
+    }
+}
+
+fn chown_tree(p: &Path, uid: u32) {
+    chown_path(p, uid);
+    if let Ok(rd) = std::fs::read_dir(p) {
+        for e in rd.flatten() {
+            let q = e.path();
+            if q.is_dir() {
+                chown_tree(&q, uid);
+            } else {
+                chown_path(&q, uid);
+            }
+        }
+    }
+}
+
+/// the scene of `p`: the directory of the log file belongs to root (0755), the log file and the
+/// archive directory `arch/` (with everything in it) to uid 65534
+fn protect(root: &Path, file: &str) -> bool {
+    use std::os::unix::fs::PermissionsExt;
+    if unsafe { libc::geteuid() } != 0 {
+        return false;
+    }
+    chown_path(root, 0);
+    let _ = std::fs::set_permissions(root, std::fs::Permissions::from_mode(0o755));
+    let _ = std::fs::create_dir_all(root.join("arch"));
+    chown_tree(&root.join("arch"), NOBODY);
+    if let Ok(target) = std::fs::read_link(root.join("arch")) {
+        chown_tree(&target, NOBODY);
+    }
+    // the log file is part of the scene: a process that may not modify the directory could not
+    // create it
+    if !root.join(file).exists() {
+        let _ = std::fs::write(root.join(file), b"");
+    }
+    chown_path(&root.join(file), NOBODY);
+    true
 }
 
 fn copy_dir(src: &Path, dst: &Path) {
@@ -72,6 +215,10 @@ enum Op {
     Unobstacle,
     /// background rotation only: wait until no rotation thread is left, then snapshot
     Quiesce,
+    Protect,
+    Unprotect,
+    /// `arch/` moves to another filesystem
+    CrossMount,
 }
 
 struct Setup {
@@ -158,6 +305,9 @@ pub fn exec(fields: &[&str]) -> String {
             ["o"] => ops.push(Op::Obstacle),
             ["u"] => ops.push(Op::Unobstacle),
             ["q"] => ops.push(Op::Quiesce),
+            ["p"] => ops.push(Op::Protect),
+            ["v"] => ops.push(Op::Unprotect),
+            ["x"] => ops.push(Op::CrossMount),
             ["a", b, t] => match (dec_bytes(b).and_then(|b| String::from_utf8(b).ok()), *t) {
                 (Some(s), "0") => ops.push(Op::Append(s, false)),
                 (Some(s), "1") => ops.push(Op::Append(s, true)),
@@ -179,6 +329,16 @@ pub fn exec(fields: &[&str]) -> String {
         }
     };
 
+    let has_protect = ops.iter().any(|o| matches!(o, Op::Protect | Op::Unprotect | Op::CrossMount));
+    if ops.iter().any(|o| matches!(o, Op::CrossMount)) && (crash.is_some() || !setup.pattern.starts_with("arch/")) {
+        return "bad-case".to_owned();
+    }
+    if bg && has_protect {
+        return "bad-case".to_owned();
+    }
+    if ops.iter().any(|o| matches!(o, Op::Protect)) && (crash.is_some() || !setup.pattern.starts_with("arch/")) {
+        return "bad-case".to_owned();
+    }
     if bg {
         return exec_bg(&setup, &init, &ops, &faults, crash);
     }
@@ -200,16 +360,29 @@ pub fn exec(fields: &[&str]) -> String {
         crash_at: None,
         crash_on_completion: false,
         crashed: false,
+        fail_mid: false,
+        crash_mid: false,
     }));
     {
         let h = hook.clone();
         log4rs::verif_hooks::set_rotate_point(Some(Arc::new(move |i: u32| {
-            // the point between a compressing copy and the removal of its source is not a
-            // step of this slice's model (yet)
+            let mut h = h.lock().unwrap();
+            // the point between a compressing copy and the removal of its source: not a step
+            // boundary (no snapshot), but a place to die or to fail when the case says so
             if i == u32::MAX - 1 {
+                if h.crashed {
+                    return Err(std::io::Error::new(std::io::ErrorKind::Other, "process is dead"));
+                }
+                if h.crash_mid {
+                    copy_dir(&h.root.clone(), &h.image.clone());
+                    h.crashed = true;
+                    return Err(std::io::Error::new(std::io::ErrorKind::Other, "crash"));
+                }
+                if h.fail_mid {
+                    return Err(std::io::Error::new(std::io::ErrorKind::Other, "injected fault"));
+                }
                 return Ok(());
             }
-            let mut h = h.lock().unwrap();
             let snap = snapshot(&h.root);
             h.boundaries.push(snap);
             let k = h.step;
@@ -244,6 +417,8 @@ pub fn exec(fields: &[&str]) -> String {
     let top_name = format!("{}", setup.pattern.replace("{}", &(setup.base as u64 + setup.count as u64 - 1).to_string()));
     let mut out: Vec<String> = vec![];
     let mut attempts = 0usize;
+    let mut prot = false;
+    let mut others: Vec<PathBuf> = vec![];
     let mut appender = match quiet_stdout(|| guarded(std::panic::AssertUnwindSafe(|| build(&root, &setup, &answer)))) {
         Ok(Ok(a)) => {
             out.push(format!("rs:ok|-|{}", snapshot(&root)));
@@ -256,8 +431,33 @@ pub fn exec(fields: &[&str]) -> String {
     };
     for op in &ops {
         match op {
+            Op::Protect => {
+                if protect(&root, &setup.file) {
+                    prot = true;
+                    out.push(format!("p|-|{}", snapshot(&root)));
+                } else {
+                    out.push(format!("p:unavailable|-|{}", snapshot(&root)));
+                }
+            }
+            Op::Unprotect => {
+                prot = false;
+                out.push(format!("v|-|{}", snapshot(&root)));
+            }
+            Op::CrossMount => match cross_mount(&root) {
+                Some(o) => {
+                    if prot {
+                        chown_tree(&o, NOBODY);
+                    }
+                    if !others.contains(&o) {
+                        others.push(o);
+                    }
+                    out.push(format!("x|-|{}", snapshot(&root)));
+                }
+                None => out.push(format!("x:unavailable|-|{}", snapshot(&root))),
+            },
             Op::Restart => {
                 drop(appender.take());
+                let _uid = Euid::drop_to(NOBODY, prot);
                 appender = match quiet_stdout(|| guarded(std::panic::AssertUnwindSafe(|| build(&root, &setup, &answer)))) {
                     Ok(Ok(a)) => {
                         out.push(format!("rs:ok|-|{}", snapshot(&root)));
@@ -297,12 +497,17 @@ pub fn exec(fields: &[&str]) -> String {
                     h.fail_at = None;
                     h.crash_at = None;
                     h.crash_on_completion = false;
+                    h.fail_mid = false;
+                    h.crash_mid = false;
                     if *ans {
                         let n = attempts;
                         attempts += 1;
-                        h.fail_at = faults.iter().filter(|f| f.0 == n).map(|f| f.1).min();
+                        h.fail_at = faults.iter().filter(|f| f.0 == n && f.1 < n_steps).map(|f| f.1).min();
+                        h.fail_mid = faults.contains(&(n, MID));
                         if let Some((cn, k)) = crash {
-                            if cn == n {
+                            if cn == n && k == MID {
+                                h.crash_mid = true;
+                            } else if cn == n {
                                 crash_here = Some(k);
                                 if k < n_steps {
                                     h.crash_at = Some(k);
@@ -316,6 +521,7 @@ pub fn exec(fields: &[&str]) -> String {
                 let res = match &appender {
                     None => "no-appender".to_owned(),
                     Some(a) => {
+                        let _uid = Euid::drop_to(NOBODY, prot);
                         let r = quiet_stdout(|| {
                             guarded(std::panic::AssertUnwindSafe(|| {
                                 a.append(
@@ -378,6 +584,9 @@ pub fn exec(fields: &[&str]) -> String {
     log4rs::verif_hooks::set_critical_section_point(None);
     let _ = std::fs::remove_dir_all(&root);
     let _ = std::fs::remove_dir_all(&image);
+    for o in &others {
+        let _ = std::fs::remove_dir_all(o);
+    }
     enc_list("/", &out)
 }
 
@@ -470,6 +679,7 @@ fn exec_bg(
                     drop(appender.take());
                     appender = start(&root, &mut out);
                 }
+                Op::Protect | Op::Unprotect | Op::CrossMount => {}
                 Op::Quiesce => {
                     let ok = wait_quiescent(baseline);
                     out.push(format!("{}|-|{}", if ok { "q" } else { "TIMEOUT" }, snapshot_canon(&root, &setup.file)));
@@ -564,6 +774,9 @@ fn enc_ops(ops: &[Op]) -> String {
         .map(|o| match o {
             Op::Append(s, t) => format!("a:{}:{}", enc_bytes(s.as_bytes()), enc_bool(*t)),
             Op::Restart => "r".to_owned(),
+            Op::Protect => "p".to_owned(),
+            Op::Unprotect => "v".to_owned(),
+            Op::CrossMount => "x".to_owned(),
             Op::Obstacle => "o".to_owned(),
             Op::Unobstacle => "u".to_owned(),
             Op::Quiesce => "q".to_owned(),
@@ -639,7 +852,13 @@ fn attempts_of(ops: &[Op]) -> usize {
 }
 
 fn random_hist(rng: &mut Rng, max_ops: u64, mode: bool, pre: bool, count: u32) -> Hist {
-    let pattern = if rng.chance(1, 6) { "arch/app.{}.log.gz" } else { "app.log.{}" };
+    let pattern = match rng.below(12) {
+        0 | 1 => "arch/app.{}.log.gz",
+        2 => "arch/app.{}.log.zst",
+        3 => "arch/{}/app.log",
+        4 => "arch/app.{}.log",
+        _ => "app.log.{}",
+    };
     let base = *rng.pick(&[0u32, 1, 3]);
     let mut init: Vec<(String, Vec<u8>)> = vec![];
     match rng.below(4) {
@@ -675,6 +894,14 @@ fn random_hist(rng: &mut Rng, max_ops: u64, mode: bool, pre: bool, count: u32) -
                 if rng.chance(1, 25) {
                     msg.clear();
                 }
+                // a record of a few KiB (several BufWriter spills; an incompressible-ish body)
+                if rng.chance(1, 50) {
+                    msg = format!("<{}:", i);
+                    for _ in 0..rng.range(1100, 3000) {
+                        msg.push((b'a' + rng.below(26) as u8) as char);
+                    }
+                    msg.push('>');
+                }
                 ops.push(Op::Append(msg, rng.chance(2, 5)));
             }
         }
@@ -682,7 +909,151 @@ fn random_hist(rng: &mut Rng, max_ops: u64, mode: bool, pre: bool, count: u32) -
     Hist { mode, size: None, pre, pattern, base, count, init, ops }
 }
 
+/// the steps of a rotation probed as points of failure (`0..count`) / of death (`0..=count`): all of
+/// them for small windows, the ends and the middle for large ones
+fn probe_steps(count: u32, upto: usize) -> Vec<usize> {
+    if count <= 4 {
+        (0..upto).collect()
+    } else {
+        let c = count as usize;
+        let mut v = vec![0, 1, c / 2, c - 2, c - 1, c];
+        v.retain(|k| *k < upto);
+        v.dedup();
+        v
+    }
+}
+
+fn compresses(pattern: &str) -> bool {
+    pattern.ends_with(".gz") || pattern.ends_with(".zst")
+}
+
 pub fn gen(rng: &mut Rng, n: usize, thorough: bool, emit: &mut dyn FnMut(String)) {
+    // deterministic block 0a: a directory the process may not modify (REAL failure inside the final
+    // step: rename refused, copy fallback done, source not removable): write, rotate twice while
+    // protected (both fail), lift the protection, rotate twice; also with a restart while protected
+    if unsafe { libc::geteuid() } == 0 {
+        for mode in [true, false] {
+            for pre in [false, true] {
+                for count in [1u32, 2, 3] {
+                    for pattern in ["arch/app.{}.log", "arch/{}/app.log", "arch/app.{}.log.gz", "arch/app.{}.log.zst"] {
+                        for restart in [false, true] {
+                            let mut ops = vec![Op::Append("<1>".to_owned(), false)];
+                            if count > 1 {
+                                ops.push(Op::Append("<f>".to_owned(), true));
+                            }
+                            ops.push(Op::Protect);
+                            ops.push(Op::Append("<2>".to_owned(), true));
+                            if restart {
+                                ops.push(Op::Restart);
+                            }
+                            ops.push(Op::Append("<3>".to_owned(), false));
+                            ops.push(Op::Append("<4>".to_owned(), true));
+                            ops.push(Op::Unprotect);
+                            ops.push(Op::Append("<5>".to_owned(), true));
+                            ops.push(Op::Append("<6>".to_owned(), true));
+                            let h = Hist { mode, size: None, pre, pattern, base: 0, count, init: vec![], ops };
+                            emit_hist(emit, &h, &[], None);
+                        }
+                    }
+                }
+            }
+        }
+    }
+    // deterministic block 0a': `arch/` on another filesystem (op `x`): the final move is `move_file`'s
+    // copy + remove fallback, successful; with a hook fault in the final step and in a shift; and
+    // combined with the protected directory (the fallback's removal of the source fails)
+    if std::fs::metadata("/dev/shm").is_ok() {
+        for mode in [true, false] {
+            for pre in [false, true] {
+                for count in [1u32, 3] {
+                    for pattern in ["arch/app.{}.log", "arch/{}/app.log", "arch/app.{}.log.gz"] {
+                        for early in [true, false] {
+                            let mut ops = vec![];
+                            if !early {
+                                ops.push(Op::Append("<0>".to_owned(), true));
+                            }
+                            ops.push(Op::CrossMount);
+                            for i in 1..=4 {
+                                ops.push(Op::Append(format!("<{}>", i), i != 3));
+                            }
+                            let h = Hist { mode, size: None, pre, pattern, base: 0, count, init: vec![], ops };
+                            emit_hist(emit, &h, &[], None);
+                            emit_hist(emit, &h, &[(1, count as usize - 1)], None);
+                            if count > 1 {
+                                emit_hist(emit, &h, &[(2, 0)], None);
+                            }
+                        }
+                    }
+                }
+            }
+        }
+        if unsafe { libc::geteuid() } == 0 {
+            for pattern in ["arch/app.{}.log", "arch/app.{}.log.zst"] {
+                let ops = vec![
+                    Op::CrossMount,
+                    Op::Append("<1>".to_owned(), true),
+                    Op::Protect,
+                    Op::Append("<2>".to_owned(), true),
+                    Op::Append("<3>".to_owned(), false),
+                    Op::Unprotect,
+                    Op::Append("<4>".to_owned(), true),
+                ];
+                let h = Hist { mode: true, size: None, pre: false, pattern, base: 0, count: 2, init: vec![], ops };
+                emit_hist(emit, &h, &[], None);
+            }
+        }
+    }
+    // deterministic block 0b: fault and death INSIDE the compressing final step (between the copy
+    // into slot base and the removal of the source), at each of the first three rotations
+    for mode in [true, false] {
+        for pre in [false, true] {
+            for count in [1u32, 2, 3] {
+                for pattern in ["arch/app.{}.log.gz", "app.{}.log.zst"] {
+                    let ops = vec![
+                        Op::Append("<1>".to_owned(), false),
+                        Op::Append("<2>".to_owned(), true),
+                        Op::Append("<3>".to_owned(), false),
+                        Op::Append("<4>".to_owned(), true),
+                        Op::Append("<5>".to_owned(), true),
+                        Op::Append("<6>".to_owned(), false),
+                    ];
+                    let h = Hist { mode, size: None, pre, pattern, base: 0, count, init: vec![], ops };
+                    for a in 0..3usize {
+                        emit_hist(emit, &h, &[(a, MID)], None);
+                        emit_hist(emit, &h, &[], Some((a, MID)));
+                    }
+                }
+            }
+        }
+    }
+    // deterministic block 0c: windows larger than 4 (every archive present at the start, so that every
+    // shift has something to move), fault-free, and failing / dying at the ends and in the middle
+    for (mode, pre) in [(true, false), (false, true)] {
+        for count in [6u32, 9] {
+            for pattern in ["app.log.{}", "arch/{}/app.log", "arch/app.{}.log.gz"] {
+                let mut init: Vec<(String, Vec<u8>)> = vec![];
+                for j in 0..count {
+                    init.push((pattern.replace("{}", &(1 + j).to_string()), format!("<old{}>", j).into_bytes()));
+                }
+                let ops = vec![
+                    Op::Append("<1>".to_owned(), true),
+                    Op::Append("<2>".to_owned(), true),
+                    Op::Append("<3>".to_owned(), false),
+                    Op::Append("<4>".to_owned(), true),
+                ];
+                let h = Hist { mode, size: None, pre, pattern, base: 1, count, init, ops };
+                emit_hist(emit, &h, &[], None);
+                for a in 0..2usize {
+                    for k in probe_steps(count, count as usize) {
+                        emit_hist(emit, &h, &[(a, k)], None);
+                    }
+                    for k in probe_steps(count, count as usize + 1) {
+                        emit_hist(emit, &h, &[], Some((a, k)));
+                    }
+                }
+            }
+        }
+    }
     // deterministic block: the F10 shape in every configuration — write, write + failed roll at
     // every step, plain write, successful roll
     for mode in [true, false] {
@@ -716,7 +1087,7 @@ pub fn gen(rng: &mut Rng, n: usize, thorough: bool, emit: &mut dyn FnMut(String)
     for mode in [true, false] {
         for pre in [false, true] {
             for count in 1..=4u32 {
-                for pattern in ["app.log.{}", "arch/app.{}.log.gz"] {
+                for pattern in ["app.log.{}", "arch/app.{}.log.gz", "arch/app.{}.log.zst", "arch/{}/app.log", "arch/app.{}.log"] {
                     let mut ops = vec![];
                     for i in 0..count.saturating_sub(1) {
                         ops.push(Op::Append(format!("<fill{}>", i), true));
@@ -817,19 +1188,24 @@ pub fn gen(rng: &mut Rng, n: usize, thorough: bool, emit: &mut dyn FnMut(String)
     while emitted < n {
         let mode = rng.chance(1, 2);
         let pre = rng.chance(1, 2);
-        let count = rng.range(1, 4) as u32;
+        let count = if rng.chance(1, 9) { *rng.pick(&[6u32, 9]) } else { rng.range(1, 4) as u32 };
         let h = random_hist(rng, max_ops, mode, pre, count);
         let a = attempts_of(&h.ops);
         emit_hist(emit, &h, &[], None);
         emitted += 1;
         for n_att in 0..a {
-            for k in 0..count as usize {
+            for k in probe_steps(count, count as usize) {
                 emit_hist(emit, &h, &[(n_att, k)], None);
                 emitted += 1;
             }
-            for k in 0..=count as usize {
+            for k in probe_steps(count, count as usize + 1) {
                 emit_hist(emit, &h, &[], Some((n_att, k)));
                 emitted += 1;
+            }
+            if compresses(h.pattern) {
+                emit_hist(emit, &h, &[(n_att, MID)], None);
+                emit_hist(emit, &h, &[], Some((n_att, MID)));
+                emitted += 2;
             }
         }
         // several faults in one history (the same step of consecutive rotations, or random ones)
